@@ -5,3 +5,4 @@ import UtpVerif.Props.C09
 import UtpVerif.Props.C16
 import UtpVerif.Props.C11
 import UtpVerif.Props.C14
+import UtpVerif.Props.C19
